@@ -403,6 +403,7 @@ func prodConcMain(args []string) error {
 	storeKind := fs.String("store", "sqlfile", "sqlfile | inmem")
 	seed := fs.Int64("seed", 1, "seed")
 	withMetrics := fs.Bool("metrics", false, "scrape the binary's Prometheus endpoint after every run (C20)")
+	instances := fs.Int("instances", 1, "how many instances of the binary serve the same database file with the same key (old and new process of a rolling upgrade, a second replica): client p talks to instance p mod instances")
 	_ = fs.Parse(args)
 	f, err := os.Open(*in)
 	if err != nil {
@@ -468,6 +469,27 @@ func prodConcMain(args []string) error {
 	if err != nil {
 		return fmt.Errorf("%v; binary says: %s", err, tailOf(p.log.String(), 1500))
 	}
+	// further instances on the same database file (each dials its own bastion)
+	ps, ccs := []*prodProc{p}, []*http2.ClientConn{cc}
+	for k := 1; k < *instances; k++ {
+		sbk, err := newStubBastion(*dir, fmt.Sprintf("conc%d", k))
+		if err != nil {
+			return err
+		}
+		defer sbk.close()
+		ck := cfg
+		ck.Tag, ck.Bastion, ck.CAFile = fmt.Sprintf("conc%d", k), sbk.addr(), sbk.caFile
+		pk, err := startProd(ck)
+		if err != nil {
+			return err
+		}
+		defer pk.kill()
+		_, cck, _, err := sbk.accept(60 * time.Second)
+		if err != nil {
+			return fmt.Errorf("instance %d: %v; binary says: %s", k, err, tailOf(pk.log.String(), 1500))
+		}
+		ps, ccs = append(ps, pk), append(ccs, cck)
+	}
 	tw, err := newTraceWriter(*out)
 	if err != nil {
 		return err
@@ -501,6 +523,7 @@ func prodConcMain(args []string) error {
 			wg.Add(1)
 			go func(pid int, prog []opsOp) {
 				defer wg.Done()
+				p, cc := ps[pid%len(ps)], ccs[pid%len(ccs)]
 				rng := mrand.New(mrand.NewSource(hashSeed(tag, *seed+int64(100+pid))))
 				for _, op := range prog {
 					op := op
@@ -547,8 +570,10 @@ func prodConcMain(args []string) error {
 		case <-time.After(120 * time.Second):
 			return fmt.Errorf("run %s: clients did not finish (hang); binary alive=%v: %s", tag, p.alive(), tailOf(p.log.String(), 1500))
 		}
-		if !p.alive() {
-			return fmt.Errorf("run %s: the binary exited: %s", tag, tailOf(p.log.String(), 3000))
+		for _, pk := range ps {
+			if !pk.alive() {
+				return fmt.Errorf("run %s: the binary exited: %s", tag, tailOf(pk.log.String(), 3000))
+			}
 		}
 		rec.add(linEvent{E: "final", Run: tag, Stored: project(w, prodSnapshot(p, w))})
 		if *withMetrics {
@@ -570,7 +595,7 @@ func prodConcMain(args []string) error {
 	if err := tw.Close(); err != nil {
 		return err
 	}
-	fmt.Printf("PROD-CONC runs=%d events=%d store=%s connected_after=%v\n", len(runs), tw.n, *storeKind, connected.Round(time.Millisecond))
+	fmt.Printf("PROD-CONC runs=%d events=%d store=%s instances=%d connected_after=%v\n", len(runs), tw.n, *storeKind, len(ps), connected.Round(time.Millisecond))
 	return nil
 }
 
